@@ -22,6 +22,9 @@ RULE = ("case = (method/bc in {trapz, simpson, cspline x (default, not-a-knot, n
         "are executed on (zero, every unit vector, one dense vector) laid out over the other axes "
         "(sizes 2, 3, 2), on a non-contiguous (transposed) copy of the first block, and on inputs whose length along dim is nx-1 and "
         "nx+1 and 1 (must raise); distinct = distinct rounded error records; trivial when construction raised")
+RULE_ADDED = ('Added later: singleton axes, regrid (grid tensor updated in place between two constructions), prior '
+              '(the same SQuad object used along other dims of tensors of other ranks before the judged calls), cal'
+              'l-order plane in fresh interpreters.')
 ASSUMPTIONS = [
     "x is 1-D, strictly increasing (documented); y[0] == y[-1] for the periodic boundary condition",
     "simpson: the running integral at even positions is the sum of the integrals of the parabolas through "
